@@ -10,6 +10,7 @@ def C09_units : List (String × String) := [
   ("sanitize.go/func/*Policy.sanitize/case:html.StartTagToken", "06e5b6a502de1bc0"),
   ("sanitize.go/func/*Policy.sanitize/case:html.EndTagToken", "13ba196cca634709"),
   ("sanitize.go/func/*Policy.sanitize/case:html.SelfClosingTagToken", "579a9bca378883dd"),
+  ("sanitize.go/func/*Policy.sanitize/around-switch", "cd2e2ace16007f49"),
   ("sanitize.go/func/*Policy.allowNoAttrs", "94b9cd29f5bdc0f7"),
   ("sanitize.go/func/isVoidElement", "120c7555bb368525")
 ]
